@@ -24,6 +24,7 @@ enum Action {
     AutoUnchoke,
     KeepAlive,
     Unstall,
+    Heal,
     CloseFin,
 }
 
@@ -58,6 +59,7 @@ struct Sess {
     /// messages scripted before our own handshake went out (protocol-conformant peers only)
     held: Vec<Msg>,
     deaf_noted: bool,
+    partition_until: u64,
 }
 
 fn note(who: &str, what: String) {
@@ -415,6 +417,15 @@ impl Sess {
                 let now = self.now();
                 self.schedule(now + ms, Action::Unstall);
             }
+            Act::Partition(ms) => {
+                world::bump("partition");
+                let now = self.now();
+                self.partition_until = self.partition_until.max(now + ms);
+                self.stalled = true;
+                world::log(Ev::Fault { kind: "partition-begin".into(), detail: self.end.conn.to_string() });
+                let at = self.partition_until;
+                self.schedule(at, Action::Heal);
+            }
             Act::Silence => self.silent = true,
             Act::Resume => self.silent = false,
             Act::Request(i, b, l) => self.send(&Msg::Request { index: i, begin: b, len: l }),
@@ -447,6 +458,13 @@ impl Sess {
     fn exec(&mut self, a: Action) {
         match a {
             Action::Push(seg) => {
+                // partitioned: the segment is still in flight, it arrives when the partition heals
+                let now = self.now();
+                if now < self.partition_until {
+                    let at = self.partition_until;
+                    self.schedule(at, Action::Push(seg));
+                    return;
+                }
                 if !self.end.push(seg) {
                     // client side is gone
                     self.done = true;
@@ -481,6 +499,12 @@ impl Sess {
                 if let Some(k) = self.plan.keepalive {
                     let now = self.now();
                     self.schedule(now + k, Action::KeepAlive);
+                }
+            }
+            Action::Heal => {
+                if self.now() >= self.partition_until {
+                    self.stalled = false;
+                    world::log(Ev::Fault { kind: "partition-heal".into(), detail: self.end.conn.to_string() });
                 }
             }
             Action::Unstall => {
@@ -589,6 +613,7 @@ fn new_session(plan: Arc<PeerPlan>, sh: Arc<Shared>, has: Arc<Mutex<Vec<bool>>>,
         last_served: None,
         held: Vec::new(),
         deaf_noted: false,
+        partition_until: 0,
     }
 }
 
